@@ -217,7 +217,7 @@ PROPS['C02'] = {
 _C03_SCEN = [  # (scenario, threads, quick cases, thorough cases)
     ('future_mt', 5, 12000, 600000), ('future_async_mt', 5, 12000, 600000), ('mutex_mt', 4, 10000, 500000), ('mutex_pool_handoff', 1, 20000, 400000),
     ('queue_mt', 5, 8000, 400000), ('lqueue_mt', 5, 8000, 400000), ('shared_future_mt', 4, 10000, 500000),
-    ('scheduler_threads', 1, 6000, 200000), ('scheduler_stop_race', 1, 6000, 200000), ('pool_mt', 4, 12000, 400000), ('publisher_mt', 4, 8000, 400000),
+    ('scheduler_threads', 1, 6000, 200000), ('scheduler_stop_race', 1, 6000, 200000), ('pool_mt', 4, 12000, 400000), ('publisher_mt', 4, 8000, 400000), ('signal_mt', 4, 8000, 400000),
 ]
 PROPS['C03'] = {
     'technique': 'ThreadSanitizer (happens-before race detection) over the shared multi-threaded scenario library; guarded fence annotation',
@@ -369,5 +369,30 @@ PROPS['C16'] = {
         J('mt_rel', 'c16.cpp', 'rel', [150000, 8000000], scenario='publisher_mt'),
         J('mt_crel', 'c16.cpp', 'crel', [0, 3000000], scenario='publisher_mt', tiers=(T,)),
         J('hist_casan', 'c16.cpp', 'casan', [0, 800000], scenario='publisher_history', threads=1, tiers=(T,)),
+    ],
+}
+
+PROPS['C15'] = {
+    'technique': 'operation histories vs reference set of waiting listeners; MT rounds with contiguity and real-time inclusion oracles; closure guards, ASan/LSan',
+    'level_text': ('Histories over listener arrival (coroutine listeners awaiting forever or once, connected callbacks returning false after k calls), '
+                   'collector calls by value / rvalue / lvalue reference (address identity) / void, collector copies, signal-from-collector conversion '
+                   'and dropping of every handle: after every step each listener must hold exactly the values emitted while it was waiting; at '
+                   'disconnect every waiting coroutine listener has seen await_canceled_exception exactly once and every callback object was released '
+                   'exactly once; awaiting a disconnected emitter fails immediately. MT rounds: 1-3 listener threads subscribe while one collector '
+                   'thread emits 1-8 values and then drops the signal: every listener receives a contiguous run ending with the last emission, '
+                   'containing every emission whose call started (TSC, 3000-cycle margin) after the listener\'s suspension returned, and is '
+                   'cancelled exactly once.'),
+    'level_note': 'The collector and the signal object are used by one thread only (documented single-threaded); listeners hold emitters created in setup.',
+    'rule': ('case = one history (2-40 ops) or one MT round; non-trivial = >=3 ops / every MT round; distinct = distinct op trace / (listeners, emissions, '
+             'gap class, values received per listener).'),
+    'min_nontrivial': [300, 2000],
+    'require_classes': ['signal_mt:listeners_that_joined_midway', 'signal_mt:listeners_that_saw_all'],
+    'single_thread_scenarios': ('signal_history',),
+    'jobs': [
+        J('hist_asan', 'c15.cpp', 'asan', [40000, 2000000], scenario='signal_history', threads=1),
+        J('mt_asan', 'c15.cpp', 'asan', [40000, 2000000], scenario='signal_mt'),
+        J('mt_rel', 'c15.cpp', 'rel', [150000, 8000000], scenario='signal_mt'),
+        J('mt_crel', 'c15.cpp', 'crel', [0, 3000000], scenario='signal_mt', tiers=(T,)),
+        J('hist_casan', 'c15.cpp', 'casan', [0, 800000], scenario='signal_history', threads=1, tiers=(T,)),
     ],
 }
